@@ -68,7 +68,18 @@ class Run:
         rc2, out2, dt2 = core.run_model(path)
         os.remove(path)
         ma, sp = core.parse_answers(out2)
-        if rc != 0:
+        if rc == -99:
+            # the watchdog fired: the first operation without an answer did not terminate
+            done = set(ia.keys())
+            missing = sorted((k for k in cases.queries if k not in done), key=lambda k: cases.pos.get(k, 1 << 60) if k in cases.pos else 1 << 60)
+            order = [k for k in cases.queries if k not in done]
+            first = order[0] if order else None
+            if first is not None:
+                q = cases.queries[first]
+                msg = f"operation does not terminate: {' '.join(q)} (case {first[0]} #{first[1]}) — no answer within the watchdog interval"
+                self.verdict.violation(f"{first[0]}-{first[1]}-hang", msg, f"# {msg}\n" + cases.replay_text(first[0]))
+            self.broken.append("harness killed by the watchdog (an operation did not terminate)")
+        elif rc != 0:
             self.broken.append(f"harness exited with status {rc} (abort inside the implementation?)")
         if rc2 != 0:
             self.broken.append(f"model driver exited with status {rc2}")
@@ -76,10 +87,29 @@ class Run:
         self.stats.setdefault("model_s", 0); self.stats["model_s"] += round(dt2, 2)
         return ia, ma, sp
 
+    def divergent_cases(self, cases, ia):
+        """cases containing a text that CPython and rustpython judge differently (valid / invalid):
+        the model is fed CPython's verdict, so these are parser divergence, not model disagreement"""
+        div = set()
+        for k, a in ia.items():
+            if a.startswith("ok parsed="):
+                q = cases.queries.get(k)
+                if not q or len(q) < 4:
+                    continue
+                tid = q[3]
+                cp = cases.ast_valid.get((k[0], tid))
+                if cp is not None and cp != (a.strip().endswith("1")):
+                    div.add(k[0])
+        self.stats["parser_divergent_cases"] = self.stats.get("parser_divergent_cases", 0) + len(div)
+        return div
+
     def correspond(self, cases, ia, ma, keys=None):
         """impl = model on every answer; returns set of disagreeing keys"""
         bad = set()
+        div = self.divergent_cases(cases, ia)
         for k in (keys if keys is not None else cases.queries.keys()):
+            if k[0] in div:
+                continue
             self.corr_checked += 1
             a, m = ia.get(k), ma.get(k)
             if a is None or m is None or not core.agree(a, m):
